@@ -37,6 +37,11 @@ pub struct Case {
     /// observer already waiting while the sender runs and dies (modes 0 and 2)
     pub concurrent: bool,
     pub k: u8,
+    /// (observers 1..3, not concurrent) the observer looks at the channel once *before* the
+    /// survivor sends: a non-blocking receive must come back, and a set / the router must keep
+    /// serving their other members, while nothing complete is queued behind the abandoned message
+    #[serde(default)]
+    pub poll_first: bool,
 }
 
 #[derive(Debug, Clone)]
@@ -127,12 +132,17 @@ impl Prop for C12 {
     }
 
     fn cases(ctx: &Ctx) -> u32 {
-        ctx.param_u64("cases", ctx.pick(0, 3000) as u64) as u32
+        ctx.param_u64("cases", ctx.pick(1500, 3000) as u64) as u32
     }
 
     fn strategy(_ctx: &Ctx) -> BoxedStrategy<Case> {
-        (1u8..=6, any::<bool>(), 0u8..=3, any::<bool>(), 0u8..4, any::<bool>(), 0u8..18)
-            .prop_map(|(packets, attach, before, survivor, observer, concurrent, k)| Case { packets, attach, before, survivor, observer, concurrent, k })
+        // the crash index is drawn relative to the number of calls of the send, half of the time
+        // strictly inside the transfer (2..=packets), so that the interesting region is not rare
+        (prop_oneof![1 => Just(1u8), 6 => 2u8..=6], any::<bool>(), 0u8..=3, any::<bool>(), 0u8..4, any::<bool>(), any::<bool>(), 0u16..=255, any::<bool>())
+            .prop_map(|(packets, attach, before, survivor, observer, concurrent, inside, kf, poll_first)| {
+                let k = if inside && packets >= 2 { 2 + ((kf as u32 * (packets as u32 - 1)) >> 8) as u8 } else { ((kf as u32 * (packets as u32 + 10)) >> 8) as u8 };
+                Case { packets, attach, before, survivor, observer, concurrent, k, poll_first }
+            })
             .boxed()
     }
 
@@ -148,12 +158,22 @@ impl Prop for C12 {
                             // calls of one send: socketpair, sendmsg, sends, closes (+ attachments' closes)
                             let kmax = packets + 8;
                             for k in 0..=kmax {
-                                v.push(Case { packets, attach, before, survivor, observer, concurrent: false, k });
+                                v.push(Case { packets, attach, before, survivor, observer, concurrent: false, k, poll_first: false });
                                 if ctx.thorough && (observer == 0 || observer == 2) {
-                                    v.push(Case { packets, attach, before, survivor, observer, concurrent: true, k });
+                                    v.push(Case { packets, attach, before, survivor, observer, concurrent: true, k, poll_first: false });
                                 }
                             }
                         }
+                    }
+                }
+            }
+        }
+        // a look at the channel between the crash and the survivor's next message
+        for &packets in if ctx.thorough { &[2u8, 3, 4, 6][..] } else { &[2u8, 3][..] } {
+            for k in 0..=packets + 2 {
+                for &observer in &[1u8, 2, 3] {
+                    for survivor in [true, false] {
+                        v.push(Case { packets, attach: (k + observer) % 2 == 0, before: k % 3, survivor, observer, concurrent: false, k, poll_first: true });
                     }
                 }
             }
@@ -163,10 +183,10 @@ impl Prop for C12 {
             for &packets in &[2u8, 3] {
                 for k in 1..=packets + 1 {
                     for &observer in &[1u8, 3] {
-                        v.push(Case { packets, attach: k % 2 == 0, before: 1, survivor: true, observer, concurrent: false, k });
+                        v.push(Case { packets, attach: k % 2 == 0, before: 1, survivor: true, observer, concurrent: false, k, poll_first: false });
                     }
-                    v.push(Case { packets, attach: false, before: 0, survivor: true, observer: 0, concurrent: true, k });
-                    v.push(Case { packets, attach: true, before: 2, survivor: true, observer: 2, concurrent: true, k });
+                    v.push(Case { packets, attach: false, before: 0, survivor: true, observer: 0, concurrent: true, k, poll_first: false });
+                    v.push(Case { packets, attach: true, before: 2, survivor: true, observer: 2, concurrent: true, k, poll_first: false });
                 }
             }
         }
@@ -176,6 +196,174 @@ impl Prop for C12 {
     fn exec(_ctx: &Ctx, case: &Case) -> Result<Outcome, Failure> {
         run(case)
     }
+}
+
+
+/// What an observer holds between its first look and its main loop.
+enum Observer {
+    Plain(IpcReceiver<Node>),
+    Set { set: IpcReceiverSet, id: u64, idle_id: u64, idle_tx: IpcSender<Node> },
+    Routed { crx: crossbeam_channel::Receiver<Node>, idle_crx: crossbeam_channel::Receiver<Node>, idle_tx: IpcSender<Node> },
+}
+
+fn prepare(observer: u8, rx: IpcReceiver<Node>) -> Observer {
+    match observer {
+        0 | 1 => Observer::Plain(rx),
+        2 => {
+            let mut set = IpcReceiverSet::new().unwrap();
+            let (idle_tx, idle_rx) = ipc::channel::<Node>().unwrap();
+            let idle_id = set.add(idle_rx).unwrap();
+            let id = set.add(rx).unwrap();
+            Observer::Set { set, id, idle_id, idle_tx }
+        },
+        _ => {
+            let (idle_tx, idle_rx) = ipc::channel::<Node>().unwrap();
+            let crx = ROUTER.route_ipc_receiver_to_new_crossbeam_receiver(rx);
+            let idle_crx = ROUTER.route_ipc_receiver_to_new_crossbeam_receiver(idle_rx);
+            Observer::Routed { crx, idle_crx, idle_tx }
+        },
+    }
+}
+
+/// One look at the channel while nothing complete is queued behind what the dead sender left:
+/// a non-blocking (or briefly timed) receive is repeated until it reports Empty; a set and the
+/// router get a message on *another* member and must deliver it.  Runs under the watchdog.
+fn first_look(o: &mut Observer, timed: bool, evs: &mut Vec<Ev>) {
+    match o {
+        Observer::Plain(rx) => loop {
+            let r = if timed { rx.try_recv_timeout(Duration::from_millis(3)) } else { rx.try_recv() };
+            match r {
+                Ok(v) => evs.push(decode(v)),
+                Err(TryRecvError::Empty) => break,
+                Err(TryRecvError::IpcError(IpcError::Disconnected)) => {
+                    evs.push(Ev::Closed);
+                    break;
+                },
+                Err(TryRecvError::IpcError(e)) => {
+                    evs.push(Ev::Err(format!("{:?}", e)));
+                    if evs.len() > 64 {
+                        break;
+                    }
+                },
+            }
+        },
+        Observer::Set { set, id, idle_id, idle_tx } => {
+            let _ = idle_tx.send(Node::U32(0x1d1e));
+            let mut idle_seen = false;
+            while !idle_seen {
+                match set.select() {
+                    Ok(results) => {
+                        for r in results {
+                            match r {
+                                IpcSelectionResult::MessageReceived(i, m) if i == *id => match m.to::<Node>() {
+                                    Ok(v) => evs.push(decode(v)),
+                                    Err(e) => evs.push(Ev::Err(e.to_string())),
+                                },
+                                IpcSelectionResult::ChannelClosed(i) if i == *id => evs.push(Ev::Closed),
+                                IpcSelectionResult::MessageReceived(i, _) if i == *idle_id => idle_seen = true,
+                                _ => evs.push(Ev::Err("unexpected event for the idle member".into())),
+                            }
+                        }
+                    },
+                    Err(e) => {
+                        evs.push(Ev::Err(format!("select: {}", e)));
+                        break;
+                    },
+                }
+            }
+        },
+        Observer::Routed { idle_crx, idle_tx, .. } => {
+            // the router serves its other routes while this one holds an abandoned message
+            let _ = idle_tx.send(Node::U32(0x1d1e));
+            let _ = idle_crx.recv();
+        },
+    }
+}
+
+fn observe(o: Observer, observer: u8, expect_after: u32) -> Vec<Ev> {
+    let mut evs = vec![];
+    let mut closed_seen = 0;
+    let mut survivors_seen = 0;
+    match o {
+        Observer::Plain(rx) => loop {
+            let r = if observer == 0 {
+                rx.recv()
+            } else {
+                match rx.try_recv() {
+                    Ok(v) => Ok(v),
+                    Err(TryRecvError::Empty) => {
+                        std::thread::yield_now();
+                        continue;
+                    },
+                    Err(TryRecvError::IpcError(e)) => Err(e),
+                }
+            };
+            match r {
+                Ok(v) => {
+                    let e = decode(v);
+                    if matches!(e, Ev::Msg(1, _)) {
+                        survivors_seen += 1;
+                    }
+                    evs.push(e);
+                },
+                Err(IpcError::Disconnected) => {
+                    evs.push(Ev::Closed);
+                    closed_seen += 1;
+                    // a true closure is final; after a false one the survivor's messages follow:
+                    // keep reading a little to tell the two apart
+                    if survivors_seen >= expect_after || closed_seen > 3 {
+                        break;
+                    }
+                },
+                Err(e) => {
+                    evs.push(Ev::Err(format!("{:?}", e)));
+                    if evs.len() > 64 {
+                        break;
+                    }
+                },
+            }
+        },
+        Observer::Set { mut set, id, idle_tx, .. } => {
+            let _idle_tx = idle_tx;
+            'sel: loop {
+                match set.select() {
+                    Ok(results) => {
+                        for r in results {
+                            match r {
+                                IpcSelectionResult::MessageReceived(i, m) if i == id => match m.to::<Node>() {
+                                    Ok(v) => evs.push(decode(v)),
+                                    Err(e) => evs.push(Ev::Err(e.to_string())),
+                                },
+                                IpcSelectionResult::ChannelClosed(i) if i == id => {
+                                    evs.push(Ev::Closed);
+                                    break 'sel;
+                                },
+                                _ => evs.push(Ev::Err("event for the idle member".into())),
+                            }
+                        }
+                    },
+                    Err(e) => {
+                        evs.push(Ev::Err(format!("select: {}", e)));
+                        break;
+                    },
+                }
+            }
+        },
+        Observer::Routed { crx, idle_tx, .. } => {
+            let _idle_tx = idle_tx;
+            loop {
+                match crx.recv() {
+                    Ok(v) => evs.push(decode(v)),
+                    Err(_) => {
+                        // forwarding closure dropped = the router saw the channel close
+                        evs.push(Ev::Closed);
+                        break;
+                    },
+                }
+            }
+        },
+    }
+    evs
 }
 
 const S_AFTER: u32 = 2;
@@ -190,100 +378,13 @@ fn run(case: &Case) -> Result<Outcome, Failure> {
     // --- observers ---------------------------------------------------------------------------------
     // every observer returns the sequence of events it saw, ending with Closed (or a hang)
     let expect_after = if case.survivor { S_AFTER } else { 0 };
-    let obs = move |rx: IpcReceiver<Node>| -> Vec<Ev> {
-        let mut evs = vec![];
-        let mut closed_seen = 0;
-        let mut survivors_seen = 0;
-        match observer {
-            0 | 1 => loop {
-                let r = if observer == 0 {
-                    rx.recv()
-                } else {
-                    match rx.try_recv() {
-                        Ok(v) => Ok(v),
-                        Err(TryRecvError::Empty) => {
-                            std::thread::yield_now();
-                            continue;
-                        },
-                        Err(TryRecvError::IpcError(e)) => Err(e),
-                    }
-                };
-                match r {
-                    Ok(v) => {
-                        let e = decode(v);
-                        if matches!(e, Ev::Msg(1, _)) {
-                            survivors_seen += 1;
-                        }
-                        evs.push(e);
-                    },
-                    Err(IpcError::Disconnected) => {
-                        evs.push(Ev::Closed);
-                        closed_seen += 1;
-                        // a true closure is final; after a false one the survivor's messages follow:
-                        // keep reading a little to tell the two apart
-                        if survivors_seen >= expect_after || closed_seen > 3 {
-                            break;
-                        }
-                    },
-                    Err(e) => {
-                        evs.push(Ev::Err(format!("{:?}", e)));
-                        if evs.len() > 64 {
-                            break;
-                        }
-                    },
-                }
-            },
-            2 => {
-                let mut set = IpcReceiverSet::new().unwrap();
-                let (_idle_tx, idle_rx) = ipc::channel::<Node>().unwrap();
-                let _idle = set.add(idle_rx).unwrap();
-                let id = set.add(rx).unwrap();
-                'sel: loop {
-                    match set.select() {
-                        Ok(results) => {
-                            for r in results {
-                                match r {
-                                    IpcSelectionResult::MessageReceived(i, m) if i == id => match m.to::<Node>() {
-                                        Ok(v) => evs.push(decode(v)),
-                                        Err(e) => evs.push(Ev::Err(e.to_string())),
-                                    },
-                                    IpcSelectionResult::ChannelClosed(i) if i == id => {
-                                        evs.push(Ev::Closed);
-                                        break 'sel;
-                                    },
-                                    _ => evs.push(Ev::Err("event for the idle member".into())),
-                                }
-                            }
-                        },
-                        Err(e) => {
-                            evs.push(Ev::Err(format!("select: {}", e)));
-                            break;
-                        },
-                    }
-                }
-            },
-            _ => {
-                let crx = ROUTER.route_ipc_receiver_to_new_crossbeam_receiver(rx);
-                loop {
-                    match crx.recv() {
-                        Ok(v) => evs.push(decode(v)),
-                        Err(_) => {
-                            // forwarding closure dropped = the router saw the channel close
-                            evs.push(Ev::Closed);
-                            break;
-                        },
-                    }
-                }
-            },
-        }
-        evs
-    };
+    let obs = move |o: Observer| -> Vec<Ev> { observe(o, observer, expect_after) };
 
     let mut obs_thread = None;
     let mut rx_opt = Some(rx);
     if concurrent {
         let rx = rx_opt.take().unwrap();
-        obs_thread = Some(std::thread::spawn(move || obs(rx)));
+        obs_thread = Some(std::thread::spawn(move || obs(prepare(observer, rx))));
         // let it reach its wait (not required for soundness)
         std::thread::sleep(Duration::from_millis(2));
     }
@@ -316,6 +417,42 @@ fn run(case: &Case) -> Result<Outcome, Failure> {
     };
     drop(ptx);
 
+    // --- a first look, before any survivor sends ------------------------------------------------------
+    let poll_first = case.poll_first && !concurrent && observer != 0;
+    let mut early: Vec<Ev> = vec![];
+    let mut prepared = None;
+    if poll_first {
+        let mut o = prepare(observer, rx_opt.take().unwrap());
+        let timed = k % 2 == 1;
+        match sandbox::watched(move || {
+            let mut evs = vec![];
+            first_look(&mut o, timed, &mut evs);
+            (o, evs)
+        }) {
+            Ok((o, evs)) => {
+                prepared = Some(o);
+                early = evs;
+            },
+            Err(h) => {
+                return Err(sandbox::hang_failure(
+                    "crash:observer-blocks-on-abandoned-message",
+                    &format!(
+                        "sender process {} at call {}; nothing complete is queued behind what it left, and {}",
+                        if died { "died" } else { "finished" },
+                        k,
+                        match observer {
+                            1 if timed => "try_recv_timeout(3 ms) does not come back",
+                            1 => "try_recv does not come back",
+                            2 => "select does not deliver the message of another member of the set",
+                            _ => "the router does not deliver the message of another route",
+                        }
+                    ),
+                    h,
+                ))
+            },
+        }
+    }
+
     // --- the survivor ----------------------------------------------------------------------------------
     let (stx, srx) = ipc::channel::<Node>().map_err(|e| Failure::inconclusive(e.to_string()))?;
     if case.survivor {
@@ -334,10 +471,19 @@ fn run(case: &Case) -> Result<Outcome, Failure> {
             Ok(Err(_)) => fail!("crash:observer-panicked", "the observer panicked: {:?}", crate::take_panics()),
             Err(h) => return Err(sandbox::hang_failure("crash:observer-hangs", &format!("every sender is gone (sender process {} at call {}), the waiting observer {} never finishes", if died { "died" } else { "finished" }, k, observer), h)),
         }
+    } else if observer == 2 && early.iter().any(|e| matches!(e, Ev::Closed)) {
+        // the set reported the closure during the first look: the member is gone from the set
+        early
     } else {
-        let rx = rx_opt.take().unwrap();
-        match sandbox::watched(move || obs(rx)) {
-            Ok(e) => e,
+        let o = match prepared {
+            Some(o) => o,
+            None => prepare(observer, rx_opt.take().unwrap()),
+        };
+        match sandbox::watched(move || obs(o)) {
+            Ok(mut e) => {
+                early.append(&mut e);
+                early
+            },
             Err(h) => return Err(sandbox::hang_failure("crash:observer-hangs", &format!("every sender is gone (sender process {} at call {}), observer {} never finishes", if died { "died" } else { "finished" }, k, observer), h)),
         }
     };
@@ -415,7 +561,7 @@ fn run(case: &Case) -> Result<Outcome, Failure> {
         if attach { "+att" } else { "" },
         if case.survivor { "survivor" } else { "no-survivor" },
         observer,
-        if concurrent { "c" } else { "" },
+        if concurrent { "c" } else if poll_first { "+first-look" } else { "" },
         if !died { "send-completed" } else if fatal_delivered { "died-after-last-packet" } else if inside { "died-mid-message" } else if abort_error { "died-partial" } else { "died-before-first-packet" }
     );
     Ok(Outcome::new(inside, class).with("crash_points", died as u64))
